@@ -90,8 +90,8 @@ def _surface(cfg, E_factor=1.0):
     c = float(np.max(mesh[-1, :, 0] - mesh[0, :, 0]))
     s["E"] = s["E"] * max(1.0, (b / (8.0 * c)) ** 3) * E_factor
     s["G"] = 0.4 * s["E"]
-    if cfg["model"] == "tube":
-        s["fem_origin"] = float(cfg.get("fem_origin", 0.35))
+    # tube: chordwise spar location; wingbox: the key is documented as ignored (the axis follows from the airfoil data)
+    s["fem_origin"] = float(cfg.get("fem_origin", 0.35))
     return s, b
 
 
@@ -123,8 +123,7 @@ class Interp:
                 self.labels.append(k)
         if cfg["n_masses"]:
             self.labels.append("point_mass")
-        if cfg["model"] == "tube":
-            self.labels.append("fem_origin=%g" % cfg.get("fem_origin", 0.35))
+        self.labels.append("fem_origin=%g" % cfg.get("fem_origin", 0.35))
         if cfg.get("rot"):
             self.labels.append("rotational")
         self.residuals = {}
